@@ -1,11 +1,26 @@
-import BvaProofs.Base
-import BvaModel.Step
+import BvaProofs.Refine
 /-!
 # C02 — division and remainder are exact for every non-zero divisor; a zero divisor panics
-(status: the L0 facts and the zero-divisor panic are proved here; the refinement of the shift-subtract
-loop to `BV.div`/`BV.rem` is assembled in a later revision — see DESIGN.md.)
+
+`Api.divRemOp v x` models `/`, `%`, `/=`, `%=` in every form (all of them project `div_rem`; for a `Bv`
+subject the operators dispatch on the storage variant and call the variant's `div_rem`);
+`Api.divRem v x` models the public trait method `div_rem::<B>(&x)` (for a `Bv` subject: `Bv::div_rem`,
+a third, separately written body).  The shift-subtract loop is proved to compute `⌊a/b⌋` and `a mod b`
+(`BvaProofs/Div.lean`), for a divisor of any implementation, word width and length — including
+longer than the dividend and longer than a fixed dividend's capacity (repair D1: the `expect` in
+`Bvf::div_rem` is proved unreachable) — or a native integer.
 -/
 namespace Bva
+
+theorem AnyBv.Inv.div {x : AnyBv} (h : x.Inv) : div_AnyInv x := by
+  cases x with
+  | f w b => exact ⟨h.1.pos, h.2⟩
+  | d b => exact h
+
+theorem AnyBv.Inv.compat {x : AnyBv} (h : x.Inv) {w : Nat} (hw : WOk w) : Compat (div_anyW x) w := by
+  cases x with
+  | f w1 b => exact h.1.compat hw
+  | d b => exact wok64.compat hw
 
 /-- L0: for a non-zero divisor the quotient and remainder satisfy `q·b + r = a` and `r < b`,
 have the dividend's length, and are well-formed. -/
@@ -19,19 +34,98 @@ theorem C02_spec_divrem (a x : BV) (ha : a.WF) (hx : x.val ≠ 0) :
   · exact Nat.lt_of_le_of_lt (Nat.div_le_self _ _) ha
   · exact Nat.lt_of_le_of_lt (Nat.mod_le _ _) ha
 
-/-- L1: a divisor whose value is zero makes every `div_rem` body panic (Bvf, Bvd, Bv). The zero test
-is the model of `assert!(!divisor.is_zero())`; `AnyBv.isZero` is proved equal to `val = 0` in C16. -/
-theorem C02_zero_panics_bvf {w : Nat} (s : Raw w) (k : SrcKind) (x : AnyBv) (hz : x.isZero = true) :
-    Bvf.divRem s k x = .panic := by
-  unfold Bvf.divRem; simp [hz]
+/-- `/`, `%`, `/=`, `%=` — every implementation of the dividend, every kind of divisor:
+a zero-valued (or empty) divisor panics, any other divisor yields exactly `⌊a/b⌋` and `a mod b` at the
+dividend's type and length, with the storage invariant re-established. -/
+theorem C02_operators (v : Vec) (x : Api.Rhs) (hv : v.Inv) (hx : x.Inv) :
+    (x.spec.val = 0 → Api.divRemOp v x = .panic) ∧
+    (x.spec.val ≠ 0 → ∃ q r, Api.divRemOp v x = .ok (q, r) ∧ q.Inv ∧ r.Inv ∧
+        q.abs = v.abs.div x.spec ∧ r.abs = v.abs.rem x.spec) := by
+  obtain ⟨hxa, hxe⟩ := Api.Rhs.any_ok v x hx
+  unfold Api.divRemOp Api.divRemK
+  cases v with
+  | f w s =>
+    have r := Bvf.divRem_refines s x.kind (x.any (.f w s)) hv.1.two_le hv.2 hxa.div (hxa.compat hv.1)
+    rw [hxe] at r
+    refine ⟨fun h0 => by simp only [r.1 h0, Res.map], fun hn => ?_⟩
+    obtain ⟨q, rr, e, hq, hr, aq, ar, _, _⟩ := r.2 hn
+    exact ⟨.f w q, .f w rr, by simp only [e, Res.map], ⟨hv.1, hq⟩, ⟨hv.1, hr⟩, aq, ar⟩
+  | d s =>
+    have r := Bvd.divRem_refines' s (x.any (.d s)) hv hxa.div (hxa.compat wok64)
+    rw [hxe] at r
+    refine ⟨fun h0 => by simp only [r.1 h0, Res.map], fun hn => ?_⟩
+    obtain ⟨q, rr, e, hq, hr, aq, ar⟩ := r.2 hn
+    exact ⟨.d q, .d rr, by simp only [e, Res.map], hq, hr, aq, ar⟩
+  | a b =>
+    cases b with
+    | fixed s =>
+      have r := Bvf.divRem_refines s x.kind (x.any (.a (.fixed s))) (by decide) hv.1 hxa.div (hxa.compat wok64)
+      rw [hxe] at r
+      refine ⟨fun h0 => by simp only [r.1 h0, Res.map], fun hn => ?_⟩
+      obtain ⟨q, rr, e, hq, hr, aq, ar, sq, sr⟩ := r.2 hn
+      exact ⟨.a (.fixed q), .a (.fixed rr), by simp only [e, Res.map], ⟨hq, sq.trans hv.2⟩, ⟨hr, sr.trans hv.2⟩, aq, ar⟩
+    | dynamic s =>
+      have r := Bvd.divRem_refines' s (x.any (.a (.dynamic s))) hv hxa.div (hxa.compat wok64)
+      rw [hxe] at r
+      refine ⟨fun h0 => by simp only [r.1 h0, Res.map], fun hn => ?_⟩
+      obtain ⟨q, rr, e, hq, hr, aq, ar⟩ := r.2 hn
+      exact ⟨.a (.dynamic q), .a (.dynamic rr), by simp only [e, Res.map], hq, hr, aq, ar⟩
 
-theorem C02_zero_panics_bvd (s : Raw 64) (x : AnyBv) (hz : x.isZero = true) :
-    Bvd.divRem s x = .panic := by
-  unfold Bvd.divRem; simp [hz]
+theorem Vec.Inv.bv {b : Bv} (h : (Vec.a b).Inv) : div_BvInv b := by
+  cases b with
+  | fixed s => exact h
+  | dynamic s => exact h
 
-theorem C02_zero_panics_bv (s : Bv) (k : SrcKind) (x : AnyBv) (hz : x.isZero = true) :
-    Bv.divRem s k x = .panic := by
-  unfold Bv.divRem; simp [hz]
+theorem Vec.inv_of_div_bv {b : Bv} (h : div_BvInv b) : (Vec.a b).Inv := by
+  cases b with
+  | fixed s => exact h
+  | dynamic s => exact h
 
+/-- the public trait method `div_rem::<B>` with a divisor of any implementation `B` (including `B = Bv`). -/
+theorem C02_div_rem (v x : Vec) (hv : v.Inv) (hx : x.Inv) :
+    (x.abs.val = 0 → Api.divRem v x = .panic) ∧
+    (x.abs.val ≠ 0 → ∃ q r, Api.divRem v x = .ok (q, r) ∧ q.Inv ∧ r.Inv ∧
+        q.abs = v.abs.div x.abs ∧ r.abs = v.abs.rem x.abs) := by
+  have hxa := hx.any
+  have hxe := Vec.any_abs x
+  cases v with
+  | a b =>
+    have hk : x.kind = .bv → ∀ w1 (c : Raw w1), x.any = .f w1 c → w1 = 64 ∧ c.data.size = 2 := by
+      intro hkind w1 c hc
+      cases x with
+      | f w r => cases hkind
+      | d r => cases hkind
+      | a y =>
+        cases y with
+        | fixed r =>
+          simp only [Vec.any, Bv.any] at hc
+          cases hc
+          exact ⟨rfl, hx.2⟩
+        | dynamic r => simp only [Vec.any, Bv.any] at hc; cases hc
+    have r := Bv.divRem_refines b x.kind x.any (Vec.Inv.bv hv) hxa.div (hxa.compat wok64) hk
+    rw [hxe] at r
+    unfold Api.divRem
+    refine ⟨fun h0 => by simp only [r.1 h0, Res.map], fun hn => ?_⟩
+    obtain ⟨q, rr, e, hq, hr, aq, ar⟩ := r.2 hn
+    exact ⟨.a q, .a rr, by simp only [e, Res.map], Vec.inv_of_div_bv hq, Vec.inv_of_div_bv hr, aq, ar⟩
+  | f w s =>
+    have r := Bvf.divRem_refines s x.kind x.any hv.1.two_le hv.2 hxa.div (hxa.compat hv.1)
+    rw [hxe] at r
+    unfold Api.divRem Api.divRemK
+    refine ⟨fun h0 => by simp only [r.1 h0, Res.map], fun hn => ?_⟩
+    obtain ⟨q, rr, e, hq, hr, aq, ar, _, _⟩ := r.2 hn
+    exact ⟨.f w q, .f w rr, by simp only [e, Res.map], ⟨hv.1, hq⟩, ⟨hv.1, hr⟩, aq, ar⟩
+  | d s =>
+    have r := Bvd.divRem_refines' s x.any hv hxa.div (hxa.compat wok64)
+    rw [hxe] at r
+    unfold Api.divRem Api.divRemK
+    refine ⟨fun h0 => by simp only [r.1 h0, Res.map], fun hn => ?_⟩
+    obtain ⟨q, rr, e, hq, hr, aq, ar⟩ := r.2 hn
+    exact ⟨.d q, .d rr, by simp only [e, Res.map], hq, hr, aq, ar⟩
+
+/-- defect D1's input: 200 / 3 on an 8-bit vector with a 64-bit divisor -/
 example : (BV.div ⟨8, 200⟩ ⟨64, 3⟩, BV.rem ⟨8, 200⟩ ⟨64, 3⟩) = (⟨8, 66⟩, ⟨8, 2⟩) := by decide
+example : (Vec.f 8 ⟨#[200#8], 8⟩ : Vec).Inv ∧ (Api.Rhs.uint 64 3).Inv ∧ (Api.Rhs.uint 64 3).spec.val ≠ 0 :=
+  ⟨⟨wok8, (Raw.invB_iff _ (by decide)).mp (by decide)⟩, ⟨wok64, by decide, by decide⟩, by decide⟩
+
 end Bva
